@@ -235,18 +235,31 @@ func c10(c *Ctx) {
 	if c.Thorough() {
 		cts = append(cts, struct{ Label, CT string }{"octet-stream", "application/octet-stream"}, struct{ Label, CT string }{"json-charset", "application/json; charset=utf-8"})
 	}
-	for _, hook := range hookKinds {
+	// every hook kind in turn, in ONE process; then the hook-less registration once more, after a
+	// registration that did pass a hook (options of one registration are that registration's alone)
+	type hookRun struct{ hook, label string }
+	var hookRuns []hookRun
+	for _, h := range hookKinds {
+		hookRuns = append(hookRuns, hookRun{h, h})
+	}
+	hookRuns = append(hookRuns, hookRun{"status-msg", ""}, hookRun{"none", "none-after-hooked-registrations"})
+	for _, hr := range hookRuns {
+		hook := hr.hook
 		gs, err := serveGo(ch, []string{pkg + ".ErrService"}, hook, false)
 		if err != nil {
 			c.R.Harness("cannot serve: " + err.Error())
 			return
+		}
+		if hr.label == "" {
+			gs.Stop() // registered only for what it may leave behind
+			continue
 		}
 		for si, sc := range scs {
 			if !c.Thorough() && hook != "none" && (si+len(hook)+int(c.Seed))%2 == 1 {
 				continue
 			}
 			for _, ct := range cts {
-				caseID := fmt.Sprintf("err/go-server/%s/%s/hook=%s", sc.Source, ct.Label, hook)
+				caseID := fmt.Sprintf("err/go-server/%s/%s/hook=%s", sc.Source, ct.Label, hr.label)
 				if !c.Want(caseID) {
 					continue
 				}
